@@ -448,7 +448,7 @@ def run_check(pid, tier, seed):
         groups, wanted = spec['layerI']
         partial_ = []
         if tier == 'thorough' and spec.get('layerI_thorough'):       # heavier / partial theorems: thorough tier only
-            g2, w2 = spec['layerI_thorough']; groups = groups + ',' + g2 if groups else g2; wanted = list(wanted) + list(w2); partial_ = list(w2)
+            g2, w2 = spec['layerI_thorough']; groups = groups + ',' + g2 if groups else g2; wanted = list(wanted) + list(w2); partial_ = [w for w in w2 if w in getattr(props, 'PARTIAL_LAYER_I', set())]
         with Lock('layerI.lock'):
             res = LI.check_layerI(os.path.join(scratch, 'layerI'), src=os.path.join(REPO, 'src'), groups=groups)
         for name, ok_, det_ in res:
